@@ -571,8 +571,27 @@ func genListing(rnd *hx.Rand) LCase {
 	return c
 }
 
+// oracleApplies: the property oracle judges litestream-shaped listings only, i.e. those
+// meeting the theorem's hypotheses (checked here independently of the model): something is
+// restorable and L1's maximum is reachable without level-0 files; a raw EnforceRetentionByTXID
+// must get a floor bounded by the newest snapshot.
 func oracleApplies(c LCase) bool {
-	if !c.Shaped {
+	if !c.Shaped || reach(c.Files) == 0 {
+		return false
+	}
+	var non0 []F
+	for _, f := range c.Files {
+		if f.L != 0 {
+			non0 = append(non0, f)
+		}
+		if f.Min < 1 || f.Max < f.Min {
+			return false
+		}
+	}
+	if m1 := maxOf(level(c.Files, 1)); m1 > 0 && reach(non0) < m1 {
+		return false
+	}
+	if (c.Op == "txid" || c.Op == "txiddb") && c.TX > snapMaxOf(c.Files) {
 		return false
 	}
 	return true
@@ -656,13 +675,13 @@ func genHistory(rnd *hx.Rand, n int) HCase {
 	for i := 0; i < n; i++ {
 		x := rnd.Intn(100)
 		switch {
-		case x < 30:
+		case x < 28:
 			h.Ops = append(h.Ops, HOp{Op: "write", Arg: 1 + rnd.Intn(3)}, HOp{Op: "sync"})
-		case x < 48:
+		case x < 45:
 			h.Ops = append(h.Ops, HOp{Op: "compact", Arg: 1 + rnd.Intn(h.LV)})
-		case x < 58:
+		case x < 57:
 			h.Ops = append(h.Ops, HOp{Op: "snapshot"})
-		case x < 70:
+		case x < 67:
 			h.Ops = append(h.Ops, HOp{Op: "age", Sel: rnd.Uint64()})
 		case x < 78:
 			h.Ops = append(h.Ops, HOp{Op: "ageall"})
@@ -793,7 +812,29 @@ func runHistory(tmp string, drv *hx.Driver, h HCase, res *hx.Result) (kind, sig,
 		}
 	}
 	synced := false
+	// growth check: every file the real code adds must satisfy AddOK (hypothesis of retention_seq)
+	growth := func(i int, before []F) (string, string, string) {
+		after, err := listDir(x.fc, x.epoch)
+		if err != nil {
+			hx.Fatal(err)
+		}
+		for _, g := range diff(after, before) {
+			ans, err := drv.Ask(fmt.Sprintf("addok N=%d G=%d:%d:%d:%d F=%s", reach(before), g.L, g.Min, g.Max, g.Cr, fmtFiles(before, true)))
+			if err != nil {
+				hx.Fatal(err)
+			}
+			count("hist-addok " + ans)
+			if ans != "ok 1" && ans != "-" {
+				return "disagreement", "C07/growth-outside-model", fmt.Sprintf("step %d: the real code added file %d:%d:%d to %s, which does not satisfy AddOK (%s)", i, g.L, g.Min, g.Max, fmtFiles(before, false), ans)
+			}
+		}
+		return "", "", ""
+	}
 	for i, op := range h.Ops {
+		var pre []F
+		if op.Op == "sync" || op.Op == "compact" || op.Op == "snapshot" {
+			pre, _ = listDir(x.fc, x.epoch)
+		}
 		switch op.Op {
 		case "write":
 			for j := 0; j < op.Arg; j++ {
@@ -952,6 +993,11 @@ func runHistory(tmp string, drv *hx.Driver, h HCase, res *hx.Result) (kind, sig,
 				if hx.Differs(impl, model) {
 					return "disagreement", "C07/model-vs-impl-history-" + op.Op, fmt.Sprintf("step %d: impl=%q model=%q", i, impl, model)
 				}
+			}
+		}
+		if op.Op == "sync" || op.Op == "compact" || op.Op == "snapshot" {
+			if k, sg, w := growth(i, pre); k != "" {
+				return k, sg, w
 			}
 		}
 	}
